@@ -146,7 +146,7 @@ func newGenRig(b *behaviour, procs []string, free bool) *genRig {
 	// everywhere else the watchdog is just a generous bound for a loaded machine
 	r.s.Watchdog = 5 * time.Second
 	if b.Store == "nocas" && b.Lay != "distinct" {
-		r.s.Watchdog = 400 * time.Millisecond
+		r.s.Watchdog = 150 * time.Millisecond
 	}
 	ctx, cancel := context.WithCancel(context.Background())
 	r.cancel = cancel
